@@ -106,6 +106,17 @@ fn main() {
         pfvcore::props_c14::digest_main(&*cur, &args[2], &args[3]);
         return;
     }
+    if args.len() == 3 && args[1] == "mkinputs" {
+        install_panic_hook();
+        pfvcore::props_c14::Inputs::build(&Cur).save(&args[2]);
+        return;
+    }
+    if args.len() == 5 && args[1] == "firstuse" {
+        install_panic_hook();
+        let cur: Box<dyn Subject> = if std::env::var("PFV_SUBJECT").as_deref() == Ok("reference") { Box::new(Refb) } else { Box::new(Cur) };
+        pfvcore::props_c14::firstuse_main(&*cur, &args[2], args[3].parse().unwrap(), args[4].parse().unwrap());
+        return;
+    }
     if args.len() < 4 || args[1] != "run" {
         usage();
     }
